@@ -336,6 +336,9 @@ func (e *env) applyOp(dir string, t *target, op histOp) {
 	}
 }
 
+// crashOdds: 1 in crashOdds of the "empty" draws becomes a real killed run (strace is slow: rarer in the quick tier).
+var crashOdds = 0
+
 func genHistory(r *progen.Rand, t *target) []histOp {
 	n := 1 + r.Intn(4)
 	var ops []histOp
@@ -353,7 +356,10 @@ func genHistory(r *progen.Rand, t *target) []histOp {
 				op.Arg = 1000
 			}
 		case 7:
-			op = histOp{Op: "crash", File: f, Arg: 1 + r.Intn(60)}
+			op = histOp{Op: "empty", File: f}
+			if crashOdds > 0 && r.Chance(1, crashOdds) {
+				op = histOp{Op: "crash", File: f, Arg: 10 + r.Intn(60)}
+			}
 		case 8:
 			op = histOp{Op: "delete", File: f}
 			if r.Chance(1, 2) {
@@ -473,8 +479,24 @@ func (e *env) checkTarget(t *target, seed uint64, idx int, tier string, c *count
 	if tier == "thorough" {
 		nHist = 24
 	}
-	for h := 0; h < nHist; h++ {
+	// dedicated real-crash histories: the generator itself is killed at its N-th write, then run again
+	nCrash := 0
+	if e.strace {
+		if tier == "thorough" {
+			nCrash = 2
+		} else if t.origin == "progen" && r.Chance(1, 2) {
+			nCrash = 1
+		}
+	}
+	for h := 0; h < nHist+nCrash; h++ {
 		ops := genHistory(r, t)
+		if h >= nHist {
+			f := t.files[r.Intn(len(t.files))]
+			ops = []histOp{{Op: "crash", File: f, Arg: 20 + r.Intn(45)}}
+			if r.Chance(1, 2) {
+				ops = append([]histOp{{Op: "gen", File: f}}, ops...)
+			}
+		}
 		d := work()
 		for _, op := range ops {
 			e.applyOp(d, t, op)
@@ -639,8 +661,10 @@ func Run(tier string) int {
 	seed := drv.Seed()
 	fmt.Printf("C11 %s VERIF_SEED=%d\n", tier, seed)
 	e := prepare()
-	n := 80
+	n := 64
+	crashOdds = 0
 	if tier == "thorough" {
+		crashOdds = 2
 		n = 600
 	}
 	if v := os.Getenv("VERIF_PROGRAMS"); v != "" {
